@@ -830,14 +830,53 @@ def index_space(prog, rule, rels, chem_rel='thermosteam/_chemicals.py'):
         for a_ in f.params:
             alias.setdefault(a_, []).append(None)
 
-        def sub_base(b, depth=0):
+        cfg_box = []
+
+        def reaching(name, at):
+            """the values bound to `name` by the assignments that reach expression `at` (None in the list: some other kind of binding,
+            or the function entry).  Falls back to every binding in the function when the flow graph cannot place `at`."""
+            if not cfg_box:
+                cfg_box.append(CFG(f.node))
+            cfg = cfg_box[0]
+            n0 = cfg.node_of(at)
+            if n0 is None:
+                return alias.get(name, [None])
+            out, seen, stack = [], set(), [p_ for p_, _l in n0.pred]
+            # the statement itself may bind the name (x = [x[i] for i in index]): its right-hand side sees the earlier bindings
+            while stack:
+                nd = stack.pop()
+                if nd.id in seen:
+                    continue
+                seen.add(nd.id)
+                bound = None
+                for h in header_exprs(nd):
+                    if isinstance(h, (ast.FunctionDef, ast.ClassDef, ast.AsyncFunctionDef)):
+                        continue
+                    if isinstance(h, ast.Assign):
+                        for t in h.targets:
+                            if isinstance(t, ast.Name) and t.id == name:
+                                bound = ('v', h.value)
+                            elif any(isinstance(x, ast.Name) and x.id == name and isinstance(x.ctx, ast.Store) for x in ast.walk(t)):
+                                bound = ('v', None)
+                    elif any(isinstance(x, ast.Name) and x.id == name and isinstance(x.ctx, (ast.Store, ast.Del)) for x in ast.walk(h)):
+                        bound = ('v', None)
+                if bound is not None:
+                    out.append(bound[1])
+                    continue
+                if nd is cfg.entry or not nd.pred:
+                    out.append(None)
+                stack.extend(p_ for p_, _l in nd.pred)
+            return out or [None]
+
+        def sub_base(b, depth=0, at=None):
             """the reason `b` is a shorter sequence than the full tuple, or None"""
             if isinstance(b, ast.Attribute) and b.attr in subseq:
                 return '%s is the sub-sequence %s built by compile()' % (src(b), b.attr)
             if isinstance(b, ast.Name) and depth < 3 and b.id in alias:
-                why = [v is not None and (gathered(v) or sub_base(v, depth + 1)) for v in alias[b.id]]
+                vals = reaching(b.id, at if at is not None else b)
+                why = [v is not None and (gathered(v) or sub_base(v, depth + 1, v)) for v in vals]
                 if why and all(why):
-                    return '%s = %s: %s' % (b.id, src(alias[b.id][0]), why[0])
+                    return '%s = %s: %s' % (b.id, src(vals[0]), why[0])
             return None
 
         def gathered(v):
